@@ -69,6 +69,7 @@ package task
 //@ ghost fact depCallOK(d *ast.Dep)
 // waitErr: what the errgroup reported (the first failure in time): runDeps must hand exactly that on
 //@ ghost var waitErr error scratch
+//@ ghost var depsAwaited bool scratch
 //@ ghost var depErr error scratch
 //@ ghost table depClo(t *ast.Task, j int) ref local
 
@@ -101,6 +102,11 @@ package task
 //@   init waitErr := nil
 //@   site (*Group).Wait#1 ghost waitErr := result
 //@   ensures result == waitErr     -- a dependency stopped by a guard fails the invocation with that guard's own error (its exit class)   [C03,C13]
+// ... and runDeps returns only when EVERY dependency has returned, also after one of them failed: a sibling that was
+// cancelled is still inside its deferred commands, and those finish before the caller of the task goes on
+//@   init depsAwaited := false
+//@   site (*Group).Wait#1 ghost depsAwaited := true
+//@   ensures depsAwaited                                                                               [C14,C02,C01]
 
 // ---- C12: the listing options are the flags, and "list" is asked for when either of them is set ------------
 //@ func NewListOptions
@@ -708,7 +714,7 @@ package task
 // a dynamic variable whose command fails is a compile error of the task, reported as text: it is never an error
 // that unwraps to an exit status (ignore_error, which forgives commands that exit non-zero, must not forgive it,
 // and it is not a task-run error for the exit code)
-//@   site fmt.Errorf#0 requires arg0 == "task: Command \"%s\" failed: %s"                                          [C03]
+//@   site fmt.Errorf#0 requires arg0 == "task: Command \"%s\" failed: %s"                                          [C03,C14,C13]
 //@   init dynCtx := nil
 //@   site context.Background#1 ghost dynCtx := result
 //@   site execext.RunCommand#0 requires arg0 == dynCtx                                                         [C14,C11]
@@ -852,6 +858,9 @@ package task
 // Every source is merged with Vars.Set (an existing key is overwritten), so the order IS the precedence.
 //@ ghost var layer int scratch
 // A value marked live (CLI_ARGS: the arguments after --) is data: it never goes through the template engine.
+//@ func (*Compiler).getVariables$1
+//@   pure allocates
+//@   ensures result != nil                                                                                     [C16,C10]
 //@ func (*Compiler).getVariables$1$1
 //@   site templater.ReplaceVar#0 requires arg0.Live == nil                                                     [C19]
 //@ func (*Compiler).getVariables
@@ -874,6 +883,10 @@ package task
 //@   site (*Vars).All#5 requires layer == 6 && arg0 == call.Vars                                              [C10,C02]
 //@   site (*Vars).All#5 ghost layer := 7
 //@   site (*Vars).All#6 requires layer == 7 && arg0 == t.Vars                                                 [C10,C02]
+// the two layers that are evaluated in the directory of the task are ranged over with the function made for that
+// directory: it exists on every path that gets this far (a dir that cannot be rendered ends the call before)
+//@   site (*Vars).All#4 requires taskRangeFunc != nil                                                         [C16,C10]
+//@   site (*Vars).All#6 requires taskRangeFunc != nil                                                         [C16,C10]
 //@ func (*Compiler).getSpecialVars
 //@   trusted
 //@   pure allocates
